@@ -197,9 +197,8 @@ struct Hist {
 		write_table(path, e, (int)r.below(6), 1 + r.below(8), 1024);
 		std::vector<Bytes> keys;
 		for (auto &kv : e) keys.push_back(kv.first);
-		mtbl_reader_options *ro = mtbl_reader_options_init();
-		mtbl_reader_options_set_verify_checksums(ro, r.below(2));
-		mtbl_reader_options_set_madvise_random(ro, r.below(2));
+		bool ov = r.below(2), om = r.below(2);
+		mtbl_reader_options *ro = make_reader_options(ov, om);
 		mtbl_reader *rd;
 		if (r.chance(1, 2)) rd = mtbl_reader_init(path.c_str(), ro);
 		else { int fd = open(path.c_str(), O_RDONLY); rd = mtbl_reader_init_fd(fd, ro); close(fd); }
